@@ -42,3 +42,13 @@ package snapshot
 //@   opt assumecallreqs
 //@   atcall Cache.Del requires [evictsTheCacheKeyOfTheDeletedSlot] len(k) == len(key) - 1 && (forall j int :: 0 <= j && j < len(k) ==> k[j] == key[j + 1])
 //@   atcall Batch.Delete requires [deletesTheIteratedKey] sameArray(key, outer(key)) && len(key) == len(outer(key))
+
+// A diff layer answers a slot from the disk layer directly only if its bloom filter misses BOTH the slot
+// and the account's destruct marker: a destructed account's old slots are not in the slot bloom, and the
+// disk layer still holds their stale values.
+//@ func (dl *diffLayer) Storage(accountHash, storageHash common.Hash) (r []byte, err error)
+//@   for C08
+//@   requires dl != nil && dl.diffed != nil
+//@   modifies *
+//@   opt assumecallreqs
+//@   atcall diskLayer.Storage requires [shortcutOnlyWhenSlotAndDestructMarkerBothMiss] called(nth(Filter.Contains, 2)) && !result(nth(Filter.Contains, 1)) && !result(nth(Filter.Contains, 2))
